@@ -604,6 +604,7 @@ func histMonitor(run *histRun) []hviol {
 	}
 	dataBegins, opens := 0, 0
 	rcptsSinceReset := 0
+	everTainted := false
 	for i, o := range run.Obs {
 		next := run.EndSeq
 		if i+1 < len(run.Obs) {
@@ -956,7 +957,10 @@ func histMonitor(run *histRun) []hviol {
 				add("C03:recipient-limit", "%s: %d recipients accepted since the last Reset with MaxRecipients=%d", name, rcptsSinceReset, h.MaxRcpt)
 			}
 		}
-		if dataBegins > opens {
+		if st.tainted {
+			everTainted = true // transfer bookkeeping is unreliable from here on (see "tainted")
+		}
+		if dataBegins > opens && !everTainted {
 			add("C03:data-without-transfer", "%s: %d Data callbacks have begun but only %d transfers were legitimately opened", name, dataBegins, opens)
 		}
 		if o.Closed {
